@@ -1,13 +1,17 @@
 import Model.Dkg
 import Proofs.DkgFlags
 import Props.C08
+import Proofs.DkgRounds
 
 /-! # C07 — DKG: honest participants agree on the verdict and on consistent keys
 
-Model-level theorems about what `End` returns (every crypto-operations record, every state). The
-network-level agreement statement (two honest receivers of one execution reach the same verdict) is
-checked by the correspondence runs and the property predicates of the harness in this round; see DESIGN.md
-for the proof plan (`Trig` history invariant) — *partial*. -/
+Model-level theorems about what `End` returns (every crypto-operations record, every state), and the
+**schedule quantifier**: at an honest participant of Feldman-VSS-Qual other than the dealer, any two deliveries
+the network may reorder commute (`delivery_pair_commutes`), the state after a round does not depend on the
+delivery order (`round_order_independent`), and `End` returns the same verdict and keys for every delivery
+order of each round (`end_result_order_independent`). What remains by correspondence only: the relation
+between *different* participants of one execution (their inputs differ by the private shares), and the
+dealer-side instance inside Joint-Feldman. -/
 
 namespace Props.C07
 open Model Model.Dkg
@@ -66,8 +70,70 @@ theorem joint_end_shape (j : JSt O) (hr : j.jointRunning = true)
   · repeat' (first | split | (simp only []; split))
     all_goals rfl
 
+/-! ### the verdict does not depend on the delivery order within a round -/
+
+open Proofs.DkgCommute in
+/-- the state of a participant other than the dealer right after `Start` satisfies the invariants -/
+theorem inv_after_start (size threshold me dealer : Nat) (h : me ≠ dealer) :
+    Inv ({ size := size, threshold := threshold, me := me, dealer := dealer, running := true } : St O) := by
+  refine ⟨h, List.nodup_nil, ?_, ?_, ?_⟩
+  · intro k c hc; cases hc
+  · intro hv; cases hv
+  · intro c hc; cases hc
+
+open Proofs.DkgCommute in
+/-- that state is what `Start` produces at a non-dealer -/
+theorem start_state (size threshold me dealer : Nat) (h : dealer ≠ me) (seed : Bytes) :
+    (Dkg.start ({ size := size, threshold := threshold, me := me, dealer := dealer } : St O) seed).1 =
+      { size := size, threshold := threshold, me := me, dealer := dealer, running := true } := by
+  unfold Dkg.start Dkg.startBody
+  simp [h]
+
+open Proofs.DkgCommute in
+/-- **any two deliveries that the network may reorder commute**: broadcasts of different senders, or the private
+    and the broadcast channel of one sender; both orders end disqualified (every later message is then ignored and
+    `End` fails) or in the same state up to the order of the complaint table -/
+theorem delivery_pair_commutes (s : St O) (inv : Inv s) (e1 e2 : Dl) (hr : reorderable e1 e2) :
+    RelP (step (step s e1) e2) (step (step s e2) e1) := step_pair s inv e1 e2 hr
+
+open Proofs.DkgCommute in
+/-- **the state after a round does not depend on the delivery order**: two delivery orders with the same stream
+    of messages per sender and channel lead to related states -/
+theorem round_order_independent (s : St O) (inv : Inv s) (l1 l2 : List Dl) (h : ∀ c, stream l1 c = stream l2 c) :
+    RelP (runList s l1) (runList s l2) := round_independent s inv l1 l2 (swaps_of_streams l1 l2 h)
+
+open Proofs.DkgCommute in
+/-- **`End` returns the same result for every delivery order**: three rounds of deliveries separated by the two
+    timeouts, each round in any order that keeps every sender's broadcasts in order and every sender's private
+    messages in order -/
+theorem end_result_order_independent (s : St O) (inv : Inv s) (r1 r1' r2 r2' r3 r3' : List Dl)
+    (h1 : ∀ c, stream r1 c = stream r1' c) (h2 : ∀ c, stream r2 c = stream r2' c)
+    (h3 : ∀ c, stream r3 c = stream r3' c) : exec s r1 r2 r3 = exec s r1' r2' r3' :=
+  exec_order_independent s inv r1 r1' r2 r2' r3 r3' h1 h2 h3
+
+open Proofs.DkgCommute in
+/-- `step`, `tstep` and `endRes` are the bodies of `HandleBroadcastMsg` / `HandlePrivateMsg`, `NextTimeout` and
+    `End` of the model on a running instance -/
+theorem tie_steps (s : St O) (o : Nat) (m : Bytes) (hr : s.running = true) (ho : o < s.size) :
+    (FvssQ.handleBroadcast s o m).1 = step s (.bcast o m) ∧ (FvssQ.handlePrivate s o m).1 = step s (.priv o m) ∧
+    (s.complaintsTimeout = false → (FvssQ.nextTimeout s).1 = tstep s) ∧
+    (s.sharesTimeout = true → s.complaintsTimeout = true → (FvssQ.end_ s).2.2 = endRes s) := by
+  have hb : badIndex s.size (o : Int) = false := by
+    unfold badIndex; simp; omega
+  refine ⟨?_, ?_, ?_, ?_⟩
+  · unfold FvssQ.handleBroadcast; simp [hr, hb]; rfl
+  · unfold FvssQ.handlePrivate; simp [hr, hb]; rfl
+  · intro hct; unfold FvssQ.nextTimeout; simp [hr, hct]; rfl
+  · intro h1 h2; unfold FvssQ.end_; simp [hr, h1, h2]; rfl
+
 end Props.C07
 
 #print axioms Props.C07.fvssq_keys_shape
 #print axioms Props.C07.end_verdict_function
 #print axioms Props.C07.joint_end_shape
+#print axioms Props.C07.inv_after_start
+#print axioms Props.C07.start_state
+#print axioms Props.C07.delivery_pair_commutes
+#print axioms Props.C07.round_order_independent
+#print axioms Props.C07.end_result_order_independent
+#print axioms Props.C07.tie_steps
